@@ -9,6 +9,7 @@ Case kinds (strings are Python str; the model sees lists of code points):
   bool    as loc, "name" is a registered boolean option, "default" its registered default
   value   {"v"}   LocationStack.set + get on the same stack; save; get through a fresh stack
   selfloc {"location"}  LocationStack(location).set("foo","x") ; get (same stack) ; save ; fresh get
+  spm     {"nn", "named", "location"}  [[id, extra_path] of StartingPathMatcher(store, location).get_sections()]
 """
 import fnmatch as _fnmatch
 import io
@@ -353,6 +354,9 @@ def cases(rng, tier):
         yield gen_loc_case(rng, "loc")
     for _ in range(200 if quick else 2000):
         yield gen_loc_case(rng, "bool")
+    for _ in range(200 if quick else 2000):
+        c = gen_loc_case(rng, "loc")
+        yield {"kind": "spm", "nn": c["nn"], "named": c["named"], "location": c["location"]}
     # 4. values: exhaustive short strings over the special characters, then random
     spec = ['a', ' ', '"', "'", ',', '#', '\n', '=', '\\']
     for n in range(0, (3 if quick else 4) + 1):
@@ -404,6 +408,11 @@ def impl(inp):
         config._shared_stores.clear()
         val = config.LocationStack(inp["location"]).get(inp["name"], expand=False)
         return [secs, val]
+    if k == "spm":
+        _write_store(dict(inp, glob=None, name="foo"))
+        store = config.LocationStack(inp["location"]).store
+        m = config.StartingPathMatcher(store, inp["location"])
+        return [[s.id or "", s.extra_path] for _, s in m.get_sections()]
     if k == "value":
         v = inp["v"]
         _reset_files()
@@ -468,6 +477,9 @@ def model_term(inp):
         if k == "bool":
             return f"run_bool {head} {coq_option(inp['default'], cstr)}"
         return f"run_loc {head}"
+    if k == "spm":
+        return (f"run_spm {coq_option(inp['nn'] or None, copts)} {cnamed(inp['named'])} "
+                f"{cstr(inp['location'])}")
     if k == "value":
         return f"run_value {cstr(inp['v'])}"
     if k == "selfloc":
@@ -573,6 +585,13 @@ def oracle(inp, obs):
             return "no visible section defines the option but the value is %r (global: %r)" % (val, want_val)
         return None
     if k == "bool":
+        return None
+    if k == "spm":
+        order = [i for i, _ in reversed(inp["named"])] + ([""] if inp["nn"] else [])
+        ids = [i for i, _ in obs]
+        it = iter(order)
+        if not all(any(i == j for j in it) for i in ids):
+            return "StartingPathMatcher does not respect the reversed store order: %r" % (ids,)
         return None
     if k == "value":
         v = inp["v"]
